@@ -292,7 +292,7 @@ SHAPE = {
 
 
 @st.composite
-def grammar(draw, regimes=("BOOL", "MT", "FREE", "QQ", "FLOAT"), shape=None, symbols=False, **kw):
+def grammar(draw, regimes=("BOOL", "MT", "FREE", "QQ", "FLOAT"), shape=None, symbols=False, signed=False, **kw):
     regime = draw(st.sampled_from(list(regimes)))
     g = draw(raw_grammar(**kw))
     mode = shape or SHAPE.get(regime)
@@ -300,6 +300,11 @@ def grammar(draw, regimes=("BOOL", "MT", "FREE", "QQ", "FLOAT"), shape=None, sym
         g = repair(g, mode)
     g["rules"] = draw(weights(g, regime))
     g["regime"] = regime
+    if signed and regime in ("QQ", "REAL") and draw(st.integers(0, 3)) == 0:
+        # a field is a commutative semiring too: signed weights (absolute values stay dominated, so
+        # every series still converges absolutely); sums can now cancel to exactly zero
+        g["rules"] = [[(F(-Fraction(w)) if draw(st.integers(0, 2)) == 0 else w), h, b] for w, h, b in g["rules"]]
+        g["signed"] = True
     if symbols:
         g = resymbol(g, draw(st.sampled_from(["str"] * 7 + ["int0", "intsparse", "mixed"])))
     return g
@@ -313,6 +318,8 @@ def classify(g):
     out = set()
     if g.get("symbols"):
         out.add("terminals:" + g["symbols"])
+    if g.get("signed"):
+        out.add("signed_weights")
     N0 = cfgref.nullable_set(rules, V)
     if S in N0:
         out.add("nullable_start")
@@ -410,7 +417,7 @@ def _end_weight(draw, regime):
 
 
 @st.composite
-def automaton(draw, regime="QQ", max_states=4, max_arcs=8, alphabet=("a", "b"), eps=True, acyclic=False, pool=None, boost=None, labels=None):
+def automaton(draw, regime="QQ", max_states=4, max_arcs=8, alphabet=("a", "b"), eps=True, acyclic=False, pool=None, boost=None, labels=None, signed=False):
     n = draw(st.integers(1, max_states))
     pool = pool or draw(st.sampled_from(["int", "int", "str", "tuple"]))
     names = STATE_POOLS[pool][:n] if isinstance(pool, str) else list(pool)[:n]
@@ -435,6 +442,13 @@ def automaton(draw, regime="QQ", max_states=4, max_arcs=8, alphabet=("a", "b"), 
         ws = _arc_weights(draw, regime, len(by[q]), acyclic)
         for (a, r), w in zip(by[q], ws):
             arcs.append([names[q], a, names[r], w])
+    is_signed = False
+    if signed and regime in ("QQ", "REAL", "FLOAT") and draw(st.integers(0, 3)) == 0:
+        # signed weights (a field is a semiring too); absolute values stay dominated
+        for a in arcs:
+            if draw(st.integers(0, 2)) == 0:
+                a[3] = F(-Fraction(a[3]))
+        is_signed = True
     if boost is None:
         boost = draw(st.integers(0, 9)) < 8
     start = [[names[q], _end_weight(draw, regime)] for q in range(n) if draw(st.integers(0, 3)) == 0]
@@ -443,7 +457,7 @@ def automaton(draw, regime="QQ", max_states=4, max_arcs=8, alphabet=("a", "b"), 
         start = [[names[0], _end_weight(draw, regime)]]
     if boost and not stop:
         stop = [[names[n - 1], _end_weight(draw, regime)]]
-    return {"states": names, "start": start, "stop": stop, "arcs": arcs, "regime": regime, "acyclic": bool(acyclic), "alphabet": list(alphabet), "api": draw(st.sampled_from(["add", "add", "add", "set"]))}
+    return {"states": names, "start": start, "stop": stop, "arcs": arcs, "regime": regime, "acyclic": bool(acyclic), "alphabet": list(alphabet), "api": draw(st.sampled_from(["add", "add", "add", "set"])), "signed": is_signed}
 
 
 @st.composite
@@ -458,6 +472,8 @@ def classify_automaton(m):
     out = set()
     if m.get("api") == "set":
         out.add("built_with_set_api")
+    if m.get("signed"):
+        out.add("signed_weights")
     arcs = m["arcs"]
     tr = len(arcs[0]) == 5 if arcs else False
     if tr:
